@@ -489,8 +489,9 @@ fn run_c18(tier: &str) -> i32 {
 fn run_c20(tier: &str) -> i32 {
     let (max_wall, _) = registry::caps(tier);
     // reserve a slice of the budget for the crash images
-    let crash_budget = if tier == "quick" { 18.0 } else { 180.0 };
-    std::env::set_var("VERIF_MAX_WALL_S", format!("{}", (max_wall - crash_budget).max(10.0)));
+    let crash_budget = if tier == "quick" { 12.0 } else { 180.0 };
+    let fault_budget = if tier == "quick" { 10.0 } else { 150.0 };
+    std::env::set_var("VERIF_MAX_WALL_S", format!("{}", (max_wall - crash_budget - fault_budget).max(10.0)));
     let rc = run_hx("C20", tier);
     std::env::remove_var("VERIF_MAX_WALL_S");
     if rc == 2 {
@@ -537,9 +538,52 @@ fn run_c20(tier: &str) -> i32 {
         }
     }
     eprintln!("[crash C20 {tier}] images={} checked={} leftover_violations={n_viol} capped={}", o.images, o.images_checked, o.capped);
+    // failed operations that leave partial files: every file-system-changing call of every op failed
+    // once, then reopen: no live file may be gone, nothing the recovered version does not name may be left
+    let fo = fsx::run_faults_for(tier, threads(), fault_budget, true);
+    for m in fo.machinery.iter().take(10) {
+        eprintln!("MACHINERY: {m}");
+        exit2 = true;
+    }
+    let mut fitems = vec![];
+    let mut fseen = std::collections::BTreeSet::new();
+    for f in &fo.found {
+        if !fseen.insert(f.sig.clone()) {
+            continue;
+        }
+        let r1 = fsx::replay_fault(f);
+        let r2 = fsx::replay_fault(f);
+        match (&r1, &r2) {
+            (Ok(a), Ok(b)) if !a.is_empty() && a.len() == b.len() => {
+                fitems.push((f.sig.clone(), f.msg.clone(), serde_json::to_value(f).unwrap()));
+            }
+            _ => {
+                eprintln!("MACHINERY: fault case {} did not replay deterministically ({r1:?} / {r2:?})", f.sig);
+                exit2 = true;
+            }
+        }
+    }
+    let (fexit, f_viol, f_known) = report("C20", fitems);
+    let _ = std::fs::remove_dir_all(hx::scratch_root());
+    if let Ok(s) = std::fs::read_to_string(&p) {
+        if let Ok(mut v) = serde_json::from_str::<serde_json::Value>(&s) {
+            v["coverage"]["failed_operations"] = serde_json::json!({
+                "histories": fo.histories, "fault_points": fo.points, "runs": fo.runs, "runs_op_returned_error": fo.op_failed,
+                "capped": fo.capped, "known_findings_matched": f_known,
+                "rule": "every file-system-changing call of every op of the C16 histories failed once (strace fault injection); the tree is dropped and reopened: the open must succeed (no live file was deleted) and the directory must then hold only files the recovered version names",
+            });
+            v["violations"] = serde_json::json!(v["violations"].as_i64().unwrap_or(0) + f_viol);
+            if fo.capped {
+                v["coverage"]["capped"] = serde_json::json!(true);
+                v["coverage"]["exhaustive"] = serde_json::json!(false);
+            }
+            let _ = std::fs::write(&p, serde_json::to_string_pretty(&v).unwrap());
+        }
+    }
+    eprintln!("[fault C20 {tier}] points={} runs={} op_failed={} violations={f_viol} capped={}", fo.points, fo.runs, fo.op_failed, fo.capped);
     if exit2 {
         2
-    } else if rc == 1 || exit == 1 {
+    } else if rc == 1 || exit == 1 || fexit == 1 {
         1
     } else {
         0
